@@ -188,10 +188,11 @@ def run(ck: Checker):
     from .. import subc_fold
     subc_fold.fold_cones(ck, 'C04.CONE')
     ck.floor('C04.CONE', 3)
-    ck.rule('C06.DEC', 'the model decoder of the exact synthesis returns the k-th output at the gate chosen for the k-th row of the model (the splice pairs cone outputs with synthesised outputs by position; shared with C06)')
+    # the synthesiser the splice relies on: the k-th output of the synthesised circuit must compute the k-th row of the model, and
+    # there must be exactly one output gate per row (the splice pairs cone outputs with synthesised outputs by position).  The fold
+    # above replaces CircuitFinderSat by an oracle, so its encoding and decoder are decided here by the rules of C06 (shared).
     from . import C06 as _c06
-    _c06.dec_rule(ck, _c06.Finder(repo, Denotations(repo)))
-    ck.floor('C06.DEC', 2)
+    _c06.run(ck)
     ck.rule('C19.SUBC', 'replace_subcircuit, which splices the resynthesised cone, keeps outputs (order, multiplicity) and external users (shared with C19)')
     from .C19 import subc_rules
     from .. import history_fold
